@@ -17,6 +17,15 @@ def configs(rng, tier):
                 item = "impl A {\n %s\n pub fn inc(&mut self) {}\n pub fn get(&self) -> u8 { 0 }\n}" % ct
                 cs.append({"kind": "actor", "lib": lib, "attr": gen_impl.actor_attr(lib, ch), "item": item, "nmodels": 1,
                            "label": "ctor lib=%s ch=%s %s" % (lib, ch, ct[:40]), "cfg": (lib, ch, ct)})
+    # self-consuming methods: the loop may also end by a hand-over, which must happen for a sole owner only
+    for lib in gen_impl.LIBS:
+        for debut in (False, True):
+            for body in ("pub fn raw(self) -> u8 { 0 }\n pub fn fin(self, x: u8) -> Option<u8> { None }",
+                         "pub fn fin(self, x: u8) -> Option<u8> { None }\n pub fn raw(self) -> u8 { 0 }",
+                         "pub fn fin(self, x: u8) -> Result<u8, String> { todo!() }", "pub fn raw(mut self) -> u8 { 0 }"):
+                item = "impl A {\n pub fn new() -> Self { todo!() }\n pub fn inc(&mut self) {}\n %s\n}" % body
+                cs.append({"kind": "actor", "lib": lib, "attr": gen_impl.actor_attr(lib, None, debut=debut), "item": item, "nmodels": 1,
+                           "label": "slf lib=%s debut=%s %s" % (lib, debut, body[:18]), "cfg": (lib, debut, body)})
     return cs
 
 
@@ -24,17 +33,30 @@ def run(rep):
     rng = random.Random(rep.seed)
     rep.extra["rule"] = ("instances = real expansions over constructor shapes (Self / actor type / Option / Result under plain and qualified paths) x lib x channel; "
                          "probe = queued calls behind a parked actor, all handles dropped, then release; non-trivial = distinct (lib, channel, constructor) classes")
+    def per_model(rep, c, j, r):
+        # C04_stopped_only_by_sole_owner / C04_not_clonable_handles_never_grow need the guard or a non-clonable handle
+        if rep.oblige(r["sole"] == "true"):
+            return True
+        return {"what": "a self-consuming method without the sole-owner guard on a handle type that is Clone: the actor's loop can end while another handle exists "
+                        "(neither premise of C04_stopped_only_by_sole_owner / C04_not_clonable_handles_never_grow holds for this expansion)",
+                "model_side_search": {"scenario": "two clients hold one handle each, client 0 calls the self-consuming method, then the actor steps (Runtime/Explore.v sole_search)",
+                                      "(handles before the loop ended with Stopped, handles after)": r["sole_search"]}}
+
     rt_common.run_runtime(rep, PID, "wf_C04",
         ["fun (A V : Type) sem sem_slf dv => @C04_once A V sem sem_slf dv {i} {w}",
          "fun (A V : Type) sem sem_slf dv => @C04_drain A V sem sem_slf dv {i} {w}",
          "fun (A V : Type) sem sem_slf dv => @C04_exit_cause A V sem sem_slf dv {i} {w}"],
-        configs(rng, rep.tier))
+        configs(rng, rep.tier),
+        extra_funs=[("sole", "consume_ends_sole {i}"), ("sole_search", "sole_search (elab {i})")], per_model_check=per_model)
     runs = []
     for lib in gen_impl.LIBS:
         runs += [["lifecycle", lib, 0, "queued=4"], ["lifecycle", lib, 2, "queued=2"]]
         if rep.tier != "quick":
             runs += [["lifecycle", lib, 3, "queued=3"], ["lifecycle", lib, 1, "queued=0"], ["lifecycle", lib, 0, "queued=9"]]
-    rt_common.impl_side(rep, PID, runs, lambda a, d: probe.oracle_lifecycle(d))
+    # the other way a loop ends: hand-over to a self-consuming call issued while earlier calls are still queued
+    for lib in gen_impl.LIBS:
+        runs += [["consume", lib, ch, "handles=1", "pending=%d" % (ch or 3)] for ch in ((0, 2) if rep.tier == "quick" else (0, 1, 2, 3))]
+    rt_common.impl_side(rep, PID, runs, lambda a, d: probe.oracle_lifecycle(d) if a[0] == "lifecycle" else probe.oracle_consume(d))
 
 
 def replay(rep, path):
